@@ -1743,6 +1743,21 @@ static void run_case(const struct kase *k)
 /* ====================================================================================== */
 static uint64_t g_sample_every = 0;
 
+#define IDX_WARMUP ((uint64_t)1 << 62)
+
+static void warm_case(const struct kase *k)
+{
+    char sp[600];
+    kase_print(sp, sizeof sp, k);
+    if (g_calibrating)
+        snprintf(S->cur_spec, sizeof S->cur_spec, "%s [the unmodified reference handshake + messages of 1 and 2 bytes + a "
+                 "header announcing 65536]", sp);
+    else
+        snprintf(S->cur_spec, sizeof S->cur_spec, "%s", sp);
+    S->cur_idx = IDX_WARMUP;
+    run_case(k);
+}
+
 static void calibrate(void)
 {
     struct kase k;
@@ -1750,7 +1765,8 @@ static void calibrate(void)
     int fam = C.fam;
     C.fam = FAM_HSMUT;
     g_calibrating = 1;
-    run_case(&k);
+    k.flight = -1;
+    warm_case(&k);
     g_calibrating = 0;
     C.fam = fam;
 }
@@ -1769,17 +1785,17 @@ static void warmup(void)
         calibrate();
         calibrate();
         C.fam = FAM_RAWINJ;
-        run_case(&k);
+        warm_case(&k);
         C.fam = FAM_PREHS;
-        run_case(&k);
+        warm_case(&k);
         C.fam = FAM_FRAMES;
-        run_case(&k);
+        warm_case(&k);
         k.end = END_CLOSE;
-        run_case(&k);
+        warm_case(&k);
     } else {
-        run_case(&k);
+        warm_case(&k);
         k.end = END_CLOSE;
-        run_case(&k);
+        warm_case(&k);
     }
     C.fam = fam;
     g_warm = 0;
@@ -1890,7 +1906,7 @@ static int run_range(uint64_t from, uint64_t to, uint64_t batch)
     mkdir("/verif/build/run", 0777);
     snprintf(errp, sizeof errp, "/verif/build/run/hwire-%d.err", getpid());
     uint64_t pos = from;
-    int crashes = 0;
+    int crashes = 0, aborted = 0;
     int64_t hsref = 0;
     int fl[MAXFL] = { 0 };
     int *flp = mmap(NULL, sizeof(int) * (MAXFL + 2), PROT_READ | PROT_WRITE, MAP_SHARED | MAP_ANONYMOUS, -1, 0);
@@ -1931,6 +1947,13 @@ static int run_range(uint64_t from, uint64_t to, uint64_t batch)
         jesc(sp, sizeof sp, S->cur_spec);
         const char *kind = WIFSIGNALED(st) ? (WTERMSIG(st) == SIGALRM ? "hang" : WTERMSIG(st) == SIGABRT ? "abort" :
                            WTERMSIG(st) == SIGSEGV ? "segv" : "signal") : "exit";
+        if (S->cur_idx == IDX_WARMUP) {
+            out_f("{\"t\":\"crash\",\"kind\":\"%s\",\"status\":%d,\"idx\":-1,\"one\":\"%s\",\"stderr\":\"%s\"}\n", kind,
+                  WIFSIGNALED(st) ? WTERMSIG(st) : WEXITSTATUS(st), sp, esc);
+            crashes++;
+            aborted = 1;        /* this tree cannot even get through the warm-up inputs: nothing more to learn here */
+            break;
+        }
         if (S->cur_idx == (uint64_t)-1) {
             out_f("{\"t\":\"broken\",\"text\":\"child died during setup (%s %d): %s\"}\n", kind,
                   WIFSIGNALED(st) ? WTERMSIG(st) : WEXITSTATUS(st), esc);
@@ -1941,10 +1964,10 @@ static int run_range(uint64_t from, uint64_t to, uint64_t batch)
               WIFSIGNALED(st) ? WTERMSIG(st) : WEXITSTATUS(st), (unsigned long long)S->cur_idx, sp, esc);
         S->cases++;
         pos = S->cur_idx + 1;
-        if (++crashes > 200) {
-            out_f("{\"t\":\"broken\",\"text\":\"more than 200 crashes in one range\"}\n");
-            unlink(errp);
-            return 2;
+        if (++crashes >= 12) {
+            /* a tree that dies on a whole class of inputs: a dozen named cases per range say it all */
+            aborted = 1;
+            break;
         }
     }
     unlink(errp);
@@ -1952,7 +1975,7 @@ static int run_range(uint64_t from, uint64_t to, uint64_t batch)
         g_fl_len[i] = fl[i];
     g_hs_peak_ref = hsref;
     print_stats(from, to);
-    out_f("{\"t\":\"done\",\"crashes\":%d}\n", crashes);
+    out_f("{\"t\":\"done\",\"crashes\":%d,\"aborted\":%d,\"next\":%llu}\n", crashes, aborted, (unsigned long long)pos);
     return 0;
 }
 
@@ -2024,21 +2047,40 @@ int main(int argc, char **argv)
     }
     cfg_parse(cfg);
     if (count) {
-        if (C.fam == FAM_HSMUT) {
-            process_setup();
-            warmup();
-            if (S->internal_err) {
-                out_f("{\"t\":\"broken\",\"text\":\"%s\"}\n", S->internal_text);
-                return 2;
+        S = mmap(NULL, sizeof *S, PROT_READ | PROT_WRITE, MAP_SHARED | MAP_ANONYMOUS, -1, 0);
+        memset(S, 0, sizeof *S);
+        S->cur_idx = (uint64_t)-1;
+        pid_t pid = fork();
+        if (pid == 0) {
+            if (C.fam == FAM_HSMUT) {
+                process_setup();
+                warmup();
+                if (S->internal_err) {
+                    out_f("{\"t\":\"broken\",\"text\":\"%s\"}\n", S->internal_text);
+                    _exit(2);
+                }
             }
+            en_from = 0;
+            en_to = 0;
+            en_cb = NULL;
+            enumerate();
+            out_f("{\"t\":\"count\",\"n\":%llu,\"flights\":[%d,%d,%d,%d,%d,%d]}\n", (unsigned long long)en_idx,
+                  g_fl_len[0], g_fl_len[1], g_fl_len[2], g_fl_len[3], g_fl_len[4], g_fl_len[5]);
+            _exit(0);
         }
-        en_from = 0;
-        en_to = 0;
-        en_cb = NULL;
-        enumerate();
-        out_f("{\"t\":\"count\",\"n\":%llu,\"flights\":[%d,%d,%d,%d,%d,%d]}\n", (unsigned long long)en_idx, g_fl_len[0],
-              g_fl_len[1], g_fl_len[2], g_fl_len[3], g_fl_len[4], g_fl_len[5]);
-        return 0;
+        int st = 0;
+        waitpid(pid, &st, 0);
+        if (WIFEXITED(st))
+            return WEXITSTATUS(st);
+        char sp[1400];
+        jesc(sp, sizeof sp, S->cur_spec);
+        if (S->cur_idx == IDX_WARMUP) {
+            out_f("{\"t\":\"crash\",\"kind\":\"%s\",\"status\":%d,\"idx\":-1,\"one\":\"%s\",\"stderr\":\"\"}\n",
+                  WTERMSIG(st) == SIGABRT ? "abort" : WTERMSIG(st) == SIGSEGV ? "segv" : "signal", WTERMSIG(st), sp);
+            return 0;
+        }
+        out_f("{\"t\":\"broken\",\"text\":\"counting died with signal %d\"}\n", WTERMSIG(st));
+        return 2;
     }
     return run_range(a, b, batch);
 }
